@@ -46,7 +46,7 @@ Definition sum_len {A} (l : list (list A)) : nat := fold_left (fun a x => (a + L
 (* None = accepted *)
 Definition walk_verdict (n : nat) (edges : list (nat * nat)) (eo : bool) (s : nat) (t : option nat)
            (status : string) (trees : list (list (option nat * nat))) (routes : list (list nat))
-           (counts : option (nat * nat)) : option string :=
+           (counts : option (nat * option nat)) : option string :=
   let w := mk_world n edges [] [] 0%Q in
   let g := SR.graph_of QN w in
   match all_some (map (fun tr => all_some (map (branch_triple g) tr)) trees) with
@@ -63,8 +63,11 @@ Definition walk_verdict (n : nat) (edges : list (nat * nat)) (eo : bool) (s : na
           | Some (re, ts) =>
               if negb (String.eqb status "Ok") then None
               else if negb (Nat.eqb re (sum_len routes)) then Some "route_edges is not the length of the route"
-              else if negb (Nat.eqb ts (sum_len trees)) then Some "tree_size_count is not the size of the tree"
-              else None
+              else match ts with
+                   | Some k => if Nat.eqb k (sum_len trees) then None
+                               else Some "tree_size_count is not the size of the tree"
+                   | None => None      (* the configuration does not render the tree *)
+                   end
           | None => None
           end
       end
@@ -72,7 +75,7 @@ Definition walk_verdict (n : nat) (edges : list (nat * nat)) (eo : bool) (s : na
 
 Definition line_walk (id : Z) (n : nat) (edges : list (nat * nat)) (eo : bool) (s : nat) (t : option nat)
            (status : string) (trees : list (list (option nat * nat))) (routes : list (list nat))
-           (counts : option (nat * nat)) (text : string) : string :=
+           (counts : option (nat * option nat)) (text : string) : string :=
   line "S" id (match walk_verdict n edges eo s t status trees routes counts with
                | None => text
                | Some why => "REJECT(" ++ why ++ ") " ++ status
